@@ -22,6 +22,8 @@ var c14Programs = []string{
 	"@each(v in [o]){{ v }}@end",
 	"{{ o.a }}{{ o.b }}",
 	"{{ o.str() }}",
+	"{{ {id: x, ID: y, Id: \"z\"} }}",
+	"@dump({id: 1, ID: 2, iD: 3})",
 }
 
 // HarnessC14String: the same template with the same data gives byte-identical output or the same error under every
@@ -29,15 +31,18 @@ var c14Programs = []string{
 func HarnessC14String() {
 	prog := vChoice("program", len(c14Programs))
 	src := c14Programs[prog]
-	tag := "-program-" + string([]byte{byte('0' + prog)})
+	tag := "-program-" + string([]byte{byte('a' + prog)})
 	x := string([]byte{vByte("x")})
 	y := string([]byte{vByte("y")})
 	if prog == 1 || prog == 4 {
 		x, y = "p<", "q\"" // @dump quotes strings (%q): formatting symbolic bytes has no concrete length
 	}
 	o := map[string]any{"b": x, "a": y}
-	if vChoice("keys", 2) == 1 {
+	switch vChoice("keys", 3) {
+	case 1:
 		o["c"] = map[string]any{"k": x, "j": y}
+	case 2: // names that differ only in letter case
+		o = map[string]any{"id": x, "ID": y, "n": "z"}
 	}
 	data := map[string]any{"o": o, "x": x, "y": y}
 	if vChoice("bad-data", 2) == 1 {
